@@ -30,7 +30,7 @@ for spec in ids:
         assert sh('git -C /repo status --porcelain --untracked-files=no').stdout.strip() == '', '/repo not clean'
         assert sh('git -C /repo apply /verif/seeded/%s/patch.diff' % sid).returncode == 0
     else:
-        wt = '/tmp/mx/wt-' + sid
+        wt = '/tmp/mx/wt-' + os.path.basename(vdir) + '-' + sid
         sh('git -C /repo worktree remove --force ' + wt); shutil.rmtree(wt, ignore_errors=True)
         os.makedirs('/tmp/mx', exist_ok=True)
         r = sh('git -C /repo worktree add -q --detach %s HEAD' % wt); assert r.returncode == 0, r.stderr
